@@ -5,6 +5,7 @@ import Driver.Multimap
 import Driver.Hist
 import Driver.Image
 import Driver.Cursor
+import Driver.Catalog
 /-! Line-protocol driver. First token of each line selects the model. -/
 open Redb.Driver
 
@@ -14,6 +15,7 @@ structure DState where
   mm : MmState := {}
   hist : HistState := {}
   cur : CurState := {}
+  cat : CatState := {}
 
 def dispatch (st : DState) (line : String) : DState × String :=
   let (req, obs) := splitLine line
@@ -31,6 +33,9 @@ def dispatch (st : DState) (line : String) : DState × String :=
   | "cur" :: rest =>
     let (t, out) := curStep st.cur rest obs
     ({ st with cur := t }, out)
+  | "cat" :: rest =>
+    let (c, out) := catStep st.cat rest obs
+    ({ st with cat := c }, out)
   | "mm" :: rest =>
     let (t, out) := mmStep st.mm rest obs
     ({ st with mm := t }, out)
